@@ -1245,7 +1245,18 @@ pub mod vtunnel {
             match sc {
                 ConnectScript::Ok { download } => ok(download),
                 ConnectScript::DelayedOk { ms } => {
+                    // notes when the attempt is dropped before it completes
+                    struct Abandoned(Option<String>);
+                    impl Drop for Abandoned {
+                        fn drop(&mut self) {
+                            if let Some(d) = self.0.take() {
+                                note(format!("tcp_connect_abandoned {}", d));
+                            }
+                        }
+                    }
+                    let mut guard = Abandoned(Some(dest.clone()));
                     tokio::time::sleep(Duration::from_millis(ms)).await;
+                    guard.0 = None;
                     note(format!("tcp_connect_completed {}", dest));
                     ok(vec![])
                 }
